@@ -549,6 +549,11 @@ Section Model.
   (* (e, p): the trigger of e is awaited in the asyncio task that awaited the trigger of p before (its exception,
      if any, caught by the caller) — e can be started once p has returned *)
   Variable preds : list (ev * ev).
+  (* a further condition for starting a root call chain, e.g. "the timeout of the AsyncTimeout state the model is in
+     is armed" for the trigger awaited by an on_timeout callback (_process_timeout clears current_context, so that
+     trigger is a root call chain: own marker, registered in async_tasks, cancellable).  The theorems hold for
+     EVERY guard. *)
+  Variable guard : state -> ev -> bool.
 
   Definition mem (e : ev) (l : list ev) : bool := existsb (Nat.eqb e) l.
   Definition pred_of (e : ev) : option ev := assoc_ev preds e.
@@ -559,7 +564,7 @@ Section Model.
     match pred_of e with
     | None => true
     | Some p => existsb (fun t => Nat.eqb (t_id t) p && task_done t) (s_tasks s)
-    end.
+    end && guard s e.
 
   (* the value of current_context the new trigger finds: what the earlier trigger of the same asyncio task left *)
   Definition inherited_ctx (s : state) (e : ev) : option ev :=
